@@ -17,6 +17,7 @@ import (
 	"net/http/httptest"
 	"os"
 	"strings"
+	"time"
 
 	"github.com/apache/arrow-go/v18/arrow"
 	"github.com/basekick-labs/arc/internal/api"
@@ -28,6 +29,7 @@ import (
 )
 
 type duckEnv struct {
+	dead bool // the connection pool stopped answering (leak in a handler): skip the remaining DuckDB cases
 	c    *vh.Ctx
 	be   storage.Backend
 	root string
@@ -41,9 +43,9 @@ func newDuckEnv() *duckEnv {
 	logger := zerolog.New(io.Discard).Level(zerolog.Disabled)
 	be, err := storage.NewLocalBackend(root, logger)
 	must(err)
-	db, err := database.New(&database.Config{MemoryLimit: "1GB", ThreadCount: 2, MaxConnections: 4, LocalStorageRoot: root}, logger)
+	db, err := database.New(&database.Config{MemoryLimit: "1GB", ThreadCount: 2, MaxConnections: 32, LocalStorageRoot: root}, logger)
 	must(err)
-	qh := api.NewQueryHandler(db, be, logger, 0, 0)
+	qh := api.NewQueryHandler(db, be, logger, 60, 0) // 60 s query timeout: a leaked connection pool must not hang the run
 	app := fiber.New(fiber.Config{DisableStartupMessage: true})
 	qh.RegisterRoutes(app)
 	return &duckEnv{root: root, db: db, app: app, be: be}
@@ -167,7 +169,18 @@ func nullWrap(expr string, mode int, n int) string {
 
 // arrowQuery runs a query through arc's database layer and retains the Arrow records DuckDB produced.
 func (e *duckEnv) arrowQuery(q string) (*arrow.Schema, []arrow.Record, error) {
-	rd, conn, err := e.db.ArrowQueryContext(context.Background(), q)
+	if e.dead {
+		return nil, nil, fmt.Errorf("connection pool exhausted earlier")
+	}
+	ctx, cancel := context.WithTimeout(context.Background(), 45*time.Second)
+	defer cancel()
+	rd, conn, err := e.db.ArrowQueryContext(ctx, q)
+	if err != nil && ctx.Err() != nil {
+		e.dead = true
+		if e.c != nil {
+			e.c.Fail("query-connection-leak:duck", "DuckDB connection pool no longer hands out connections: a response handler leaked them (reader/conn not released after a failure)", "after the requests recorded in the other findings of this run; last query: "+short(q, 300))
+		}
+	}
 	if err != nil {
 		return nil, nil, err
 	}
@@ -195,12 +208,12 @@ func (e *duckEnv) postOn(app *fiber.App, ep, q string, hdr map[string]string) (i
 		}
 		return req
 	}
-	resp, err := app.Test(mk(), 120000)
+	resp, err := app.Test(mk(), 90000)
 	if err != nil && strings.Contains(err.Error(), "malformed HTTP") && e.c != nil {
 		// the response HEAD itself is corrupted: respHeader.Set(trailer) in the Arrow stream-writer goroutine races
 		// with fasthttp serialising the head into the same ResponseHeader.bufKV buffer
 		e.c.Fail("ipc-malformed:http-trailer-race", "HTTP response head corrupted: "+err.Error(), "endpoint="+ep+" source="+short(q, 600)+" (timing dependent: repeat tiny Arrow queries)")
-		resp, err = app.Test(mk(), 120000)
+		resp, err = app.Test(mk(), 90000)
 	}
 	if err != nil {
 		return 0, nil, err
@@ -537,7 +550,7 @@ func seqCase(c *vh.Ctx, m *monitor, e *duckEnv, r *vh.Rand, i int) {
 	}
 	logger := zerolog.New(io.Discard).Level(zerolog.Disabled)
 	fresh := fiber.New(fiber.Config{DisableStartupMessage: true})
-	api.NewQueryHandler(e.db, e.be, logger, 0, 0).RegisterRoutes(fresh)
+	api.NewQueryHandler(e.db, e.be, logger, 60, 0).RegisterRoutes(fresh)
 	for k := len(qs) - 1; k >= 0; k-- { // other order on the fresh handler
 		x := qs[k]
 		jd, md, ic, ok := allFormats(c, m, e, fresh, x.q, x.keys, nil, "ipc")
